@@ -1023,11 +1023,15 @@ fn one_case(rep: &mut Report, cx: &mut Ctx, c: &Case, ans: &str) {
             "sourceDirMissing" => "Source directory does not exist",
             "outputNotDir" => "output_path must be a directory when using multiple outputs",
             "noWorker" => "SendError",
-            "mappingFile" => "A panic occurred at src/main.rs:42",
+            // the mapping file cannot be opened / parsed: an `unwrap()` in main.rs, reported by the panic
+            // hook as "A panic occurred at src/main.rs:<line>: called `Result::unwrap()` …" – matched by
+            // its message, not by its line (a harmless edit of main.rs moves the line)
+            "mappingFile" => "called `Result::unwrap()` on an `Err` value",
             _ => "panic",
         };
         let log_text = c.log.as_ref().and_then(|l| std::fs::read_to_string(fx.join(l)).ok()).unwrap_or_default();
-        let said = bin.stderr.contains(pat) || log_text.contains(pat) || logged_on_stdout.contains(pat) || c.lvl.as_deref() == Some("OFF");
+        let contains = |t: &str| t.contains(pat) && (f[0] != "mappingFile" || t.contains("A panic occurred at src/main.rs:"));
+        let said = contains(&bin.stderr) || contains(&log_text) || contains(&logged_on_stdout) || c.lvl.as_deref() == Some("OFF");
         let reports: Vec<&String> = got.keys().filter(|k| !(c.out == OutKind::ExistingFile && *k == "outB") && !(c.out == OutKind::Dir && *k == "outB/")).collect();
         if bin.exit != Some(code) || !said || !reports.is_empty() || !bin.stdout.is_empty() {
             mismatch(rep, format!("model: panic {} with exit status {} and no report; binary: exit {:?}, message found: {}, files written: {:?}, {} bytes on stdout",
